@@ -142,3 +142,294 @@ Proof. induction l as [|h t IH]; intros [|i] x H; cbn in *; try discriminate; [i
 Lemma holds_t_not_rmw p : holds_t p = true -> thief_rmw p = false.
 Proof. destruct p; cbn; auto; discriminate. Qed.
 
+(** * Initial states *)
+Lemma TInv_init s : tso_initial s -> TInv s.
+Proof.
+  intros (sz & n & Hsz & ->). exists TIdle, [], false. split.
+  - cbn [tso_init sc obuf omark tbufs init_state mm qsize own pushed returned].
+    rewrite sumw_repeat_nil.
+    pose proof (quot2_bounds sz ltac:(lia)) as Q.
+    constructor; unfold LT, LB, Lq; cbn; auto; try (intros; discriminate); try lia.
+    + constructor; unfold Tq, Bq; cbn; auto; try lia.
+      * rewrite repeat_length. lia.
+      * intro x. rewrite zseg_nil by lia. reflexivity.
+    + split; [intros; discriminate|]. split; [intros _; left; constructor|]. intros; discriminate.
+  - cbn [tso_init sc tbufs tmarks init_state thv]. split; [rewrite !repeat_length; auto|].
+    split; [rewrite !repeat_length; auto|]. left. split; auto. split; auto.
+    intros j pc buf _ Ej Bj. split.
+    + rewrite (nth_error_repeat_TIdle _ _ _ Ej). reflexivity.
+    + assert (buf = []) as ->; [|constructor].
+      clear - Bj. revert j Bj. induction n as [|n IH]; intros [|j] Bj; cbn in *; try discriminate; [inversion Bj; auto|eauto].
+Qed.
+
+(** * Every step of the TSO machine preserves the invariant *)
+Theorem TInv_step t s a s' : fence_table_ok t = true -> TInv s -> tso_step t s a = Some s' -> TInv s'.
+Proof.
+  intros OK (h & hb & hm & T & Rp) E. unfold tso_step in E.
+  destruct (aborted (sc s)) eqn:Ea; [discriminate|].
+  destruct a as [[|i] [e|]].
+  - (* owner program step *)
+    destruct e.
+    + unfold step in E. rewrite Ea in E.
+      destruct (own (sc s)) eqn:Eo; try discriminate. inversion E; subst; clear E.
+      exists h, hb, hm. cbn [sc obuf omark tbufs tmarks mm qsize own thv pushed returned]. split; auto.
+      apply T_owner_call. exact T.
+    + discriminate.
+    + destruct ((omark s || owner_rmw (own (sc s)) || is_full (ofence_before t (own (sc s)))) && negb (isnil (obuf s))) eqn:G;
+        [discriminate|].
+      destruct (owner_tick (view (mm (sc s)) (obuf s)) (qsize (sc s)) (own (sc s))) as [[[ws pc'] g]|] eqn:Et; [|discriminate].
+      inversion E; subst; clear E.
+      exists h, hb, hm. cbn [sc obuf omark tbufs tmarks mm qsize own thv pushed returned]. split; auto.
+      exact (T_owner_tick t _ _ _ _ _ _ _ _ _ _ _ ws pc' g OK T G Et).
+    + unfold step in E. rewrite Ea in E.
+      destruct (own (sc s)) eqn:Eo; try discriminate. inversion E; subst; clear E.
+      exists h, hb, hm. cbn [sc obuf omark tbufs tmarks mm qsize own thv pushed returned]. split; auto.
+      eapply T_owner_ret. exact T.
+  - (* owner flush *)
+    destruct (flush_one (mm (sc s)) (obuf s)) as [[m' rest]|] eqn:Ef; [|discriminate].
+    inversion E; subst; clear E.
+    destruct (obuf s) as [|w r] eqn:Eb; cbn in Ef; [discriminate|]. inversion Ef; subst; clear Ef.
+    exists h, hb, hm. cbn [sc obuf omark tbufs tmarks mm qsize own thv pushed returned]. split; auto.
+    apply T_owner_flush. exact T.
+  - (* thief program step *)
+    destruct e.
+    + unfold step in E. rewrite Ea in E. discriminate.
+    + (* call *)
+      destruct (nth_error (thv (sc s)) i) as [pc|] eqn:Ei; [|discriminate].
+      destruct pc; try discriminate.
+      destruct (nth_error (tbufs s) i) as [buf|] eqn:Eb; [|discriminate].
+      inversion E; subst; clear E.
+      exists h, hb, hm. cbn [sc obuf omark tbufs tmarks mm qsize own thv pushed returned]. split; auto.
+      pose proof (TRep_outside _ _ _ _ _ _ _ _ _ Rp Ei eq_refl Eb) as Ob.
+      destruct (nth_error_same_length (thv (sc s)) (tmarks s) i TIdle) as (mk & Em); auto.
+      { destruct Rp as (_ & L2 & _). auto. }
+      pose proof (TRep_outside_move _ _ _ _ _ _ i TIdle (thief_call (view (mm (sc s)) buf) o) buf buf mk
+                    Rp Ei eq_refl Eb (thief_call_nohold _ _) Ob) as R'.
+      rewrite (set_nthA_same _ _ _ Eb), (set_nthA_same _ _ _ Em) in R'. exact R'.
+    + (* tick *)
+      destruct (nth_error (thv (sc s)) i) as [pc|] eqn:Ei; [|discriminate].
+      destruct (nth_error (tbufs s) i) as [buf|] eqn:Eb; [|discriminate].
+      destruct (nth_error (tmarks s) i) as [mark|] eqn:Em; [|discriminate].
+      destruct ((mark || thief_rmw pc || is_full (tfence_before t pc)) && negb (isnil buf)) eqn:G; [discriminate|].
+      destruct (thief_tick (view (mm (sc s)) buf) pc) as [[[ws pc'] g]|] eqn:Et; [|discriminate].
+      inversion E; subst; clear E.
+      cbn [sc obuf omark tbufs tmarks mm qsize own thv pushed returned].
+      pose proof (thief_tick_lock _ _ _ _ _ Et) as LE. unfold lock_effect in LE.
+      destruct (holds_t pc) eqn:Hp.
+      * (* the thief inside its critical section *)
+        destruct (TRep_holder _ _ _ _ _ _ _ _ Rp Ei Hp) as (-> & Eb' & Em' & Oo).
+        rewrite Eb in Eb'. inversion Eb'; subst hb. rewrite Em in Em'. inversion Em'; subst hm.
+        pose proof (holds_t_not_rmw _ Hp) as Er. rewrite Er. rewrite Er in LE.
+        destruct Rp as (L1 & L2 & _).
+        destruct (T_holder_tick t _ _ _ _ _ _ _ _ _ _ _ ws pc' g OK T Hp G Et) as [(Hp' & T')|(Hp' & -> & -> & T')].
+        -- exists pc', (buf ++ ws), (is_full (tfence_after t pc pc')). cbn [sc obuf omark tbufs tmarks mm qsize own thv pushed returned]. split.
+           ++ rewrite (sumw_set _ _ _ (buf ++ ws) Eb), wlocks_app.
+              destruct LE as (LE1 & _ & _). rewrite ?Hp, ?Hp' in LE1. cbn [b2z] in LE1.
+              replace (sumw (tbufs s) - wlocks buf + (wlocks buf + wlocks ws)) with (sumw (tbufs s)) by lia. exact T'.
+           ++ eapply TRep_holder_move; eauto.
+        -- exists pc', [], false. cbn [sc obuf omark tbufs tmarks mm qsize own thv pushed returned]. split.
+           ++ rewrite (sumw_set _ _ _ ([] ++ [WLock 0]) Eb). cbn [app wlocks is_wlock b2z].
+              replace (sumw (tbufs s) - 0 + (1 + 0)) with (sumw (tbufs s) + 1) by lia. apply T'.
+           ++ eapply TRep_release; eauto. cbn [app]. repeat constructor.
+      * destruct (holds_t pc') eqn:Hp'.
+        -- (* acquisition *)
+           assert (Er : thief_rmw pc = true).
+           { destruct (thief_rmw pc) eqn:Er; auto. destruct LE as (LE1 & _ & LE3). rewrite ?Hp, ?Hp' in *. cbn [b2z] in *. lia. }
+           rewrite Er. rewrite Er in LE.
+           assert (Ebuf : buf = []) by (eapply guard_drained; [exact G|]; right; left; exact Er).
+           subst buf. cbn [view apply_wrs fold_left] in Et.
+           assert (Hh : holds_t h = false).
+           { pose proof (thief_tick_acquire _ _ _ _ _ Et Hp Hp') as L0.
+             destruct (tc_lk _ _ _ _ _ _ _ _ _ _ _ T) as (K1 & K2 & K3). pose proof (wlocks_nonneg (obuf s)).
+             unfold lkof in *. destruct (holds_t h); auto. destruct (b2z_01 (holds_o (own (sc s)))); cbn [b2z] in *; lia. }
+           exists pc', [], (is_full (tfence_after t pc pc')). cbn [sc obuf omark tbufs tmarks mm qsize own thv pushed returned]. split.
+           ++ rewrite (sumw_set _ _ _ [] Eb). cbn [wlocks]. replace (sumw (tbufs s) - 0 + 0) with (sumw (tbufs s)) by lia.
+              exact (T_acquire _ _ _ _ _ _ _ _ _ _ _ _ pc ws pc' g T Hp Hp' Et).
+           ++ eapply TRep_acquire; eauto.
+        -- (* a move outside *)
+           destruct (thief_tick_nohold _ _ _ _ _ Et Hp Hp') as [-> ->].
+           exists h, hb, hm. cbn [apply_wrs fold_left ghost_pushed ghost_returned]. cbn [sc obuf omark tbufs tmarks mm qsize own thv pushed returned]. split.
+           ++ assert (Es : sumw (set_nthA (tbufs s) i (if thief_rmw pc then buf else buf ++ [])) = sumw (tbufs s)).
+              { rewrite app_nil_r. destruct (thief_rmw pc); rewrite (sumw_set _ _ _ buf Eb); lia. }
+              rewrite Es. destruct (thief_rmw pc); exact T.
+           ++ pose proof (TRep_outside _ _ _ _ _ _ _ _ _ Rp Ei Hp Eb) as Ob.
+              eapply TRep_outside_move; eauto. rewrite app_nil_r. destruct (thief_rmw pc); exact Ob.
+    + (* ret *)
+      unfold step in E. rewrite Ea in E.
+      destruct (nth_error (thv (sc s)) i) as [pc|] eqn:Ei; [|discriminate].
+      destruct pc; try discriminate. inversion E; subst; clear E.
+      exists h, hb, hm. cbn [sc obuf omark tbufs tmarks mm qsize own thv pushed returned]. split; auto.
+      destruct Rp as (L1 & L2 & R0).
+      destruct (nth_error_same_length (thv (sc s)) (tbufs s) i (TDone r)) as (buf & Eb); auto.
+      destruct (nth_error_same_length (thv (sc s)) (tmarks s) i (TDone r)) as (mk & Em); auto.
+      assert (Rp : TRep (thv (sc s)) (tbufs s) (tmarks s) h hb hm) by (split; auto).
+      pose proof (TRep_outside _ _ _ _ _ _ _ _ _ Rp Ei eq_refl Eb) as Ob.
+      pose proof (TRep_outside_move _ _ _ _ _ _ i (TDone r) TIdle buf buf mk Rp Ei eq_refl Eb eq_refl Ob) as R'.
+      rewrite (set_nthA_same _ _ _ Eb), (set_nthA_same _ _ _ Em) in R'. exact R'.
+  - (* thief flush *)
+    destruct (nth_error (tbufs s) i) as [buf|] eqn:Eb; [|discriminate].
+    destruct (flush_one (mm (sc s)) buf) as [[m' rest]|] eqn:Ef; [|discriminate].
+    inversion E; subst; clear E.
+    destruct buf as [|w r]; cbn in Ef; [discriminate|]. inversion Ef; subst; clear Ef.
+    cbn [sc obuf omark tbufs tmarks mm qsize own thv pushed returned].
+    destruct Rp as (L1 & L2 & R0).
+    assert (Rp : TRep (thv (sc s)) (tbufs s) (tmarks s) h hb hm) by (split; auto).
+    destruct (nth_error_same_length (tbufs s) (thv (sc s)) i (w :: rest)) as (pc & Ei); auto.
+    destruct (nth_error_same_length (tbufs s) (tmarks s) i (w :: rest)) as (mk & Em); auto; [congruence|].
+    destruct (holds_t pc) eqn:Hp.
+    + destruct (TRep_holder _ _ _ _ _ _ _ _ Rp Ei Hp) as (-> & Eb' & Em' & Oo).
+      rewrite Eb in Eb'. inversion Eb'; subst hb. rewrite Em in Em'. inversion Em'; subst hm.
+      pose proof (hshape_thw _ _ _ (tc_hsh _ _ _ _ _ _ _ _ _ _ _ T)) as Fw.
+      assert (W1 : wlocks (w :: rest) = 0) by (apply nolock_wlocks; eapply Forall_impl; [|exact Fw]; apply thw_nolock).
+      assert (W2 : wlocks rest = 0) by (inversion Fw; subst; apply nolock_wlocks; eapply Forall_impl; [|eassumption]; apply thw_nolock).
+      exists pc, rest, mk. cbn [sc obuf omark tbufs tmarks mm qsize own thv pushed returned]. split.
+      * rewrite (sumw_set _ _ _ rest Eb), W1, W2. replace (sumw (tbufs s) - 0 + 0) with (sumw (tbufs s)) by lia.
+        apply T_holder_flush. exact T.
+      * pose proof (TRep_holder_move _ _ _ _ _ _ i pc rest mk Ei Eb Em L1 L2 Oo Hp) as R'.
+        rewrite (set_nth_same _ _ _ Ei), (set_nthA_same _ _ _ Em) in R'. exact R'.
+    + pose proof (TRep_outside _ _ _ _ _ _ _ _ _ Rp Ei Hp Eb) as Ob.
+      inversion Ob as [|? ? Hw Fr]; subst.
+      exists h, hb, hm. cbn [sc obuf omark tbufs tmarks mm qsize own thv pushed returned]. split.
+      * rewrite (sumw_set _ _ _ rest Eb). cbn [wlocks is_wlock b2z].
+        replace (sumw (tbufs s) - (1 + wlocks rest) + wlocks rest) with (sumw (tbufs s) - 1) by lia.
+        apply T_other_flush; auto. pose proof (sumw_ge _ _ _ Eb) as Sg. cbn [wlocks is_wlock b2z] in Sg.
+        pose proof (wlocks_nonneg rest). lia.
+      * pose proof (TRep_outside_move _ _ _ _ _ _ i pc pc (WLock 0 :: rest) rest mk Rp Ei Hp Eb Hp Fr) as R'.
+        rewrite (set_nth_same _ _ _ Ei), (set_nthA_same _ _ _ Em) in R'. exact R'.
+Qed.
+
+(** * The theorem *)
+
+(** logical memory of a TSO state: memory overridden by all buffered stores (the unlock stores
+    excepted: the logical lock word is the number of participants inside a critical section) *)
+Definition lmem (s : tstate) : mem :=
+  setlck (apply_wrs (apply_wrs (mm (sc s)) (strip (concat (tbufs s)))) (strip (obuf s)))
+         (holders (sc s)).
+Definition logical (s : tstate) : state :=
+  mkState (lmem s) (qsize (sc s)) (own (sc s)) (thv (sc s)) (pushed (sc s)) (returned (sc s))
+          (aborted (sc s)).
+
+Lemma strip_onlyunlock b : onlyunlock b -> strip b = [].
+Proof. induction 1 as [|w b Hw F IH]; cbn [strip filter]; auto. subst w. cbn. exact IH. Qed.
+
+Lemma strip_concat_out (l : list (list wr)) : (forall b, In b l -> onlyunlock b) -> strip (concat l) = [].
+Proof.
+  induction l as [|b l IH]; intros H; cbn [concat]; auto.
+  rewrite strip_app, (strip_onlyunlock b) by (apply H; left; auto). cbn [app]. apply IH. intros; apply H; right; auto.
+Qed.
+
+Lemma TRep_Rep thv tbufs tmarks h hb hm : TRep thv tbufs tmarks h hb hm -> Rep thv h.
+Proof.
+  intros (L1 & L2 & [(Hh & _ & O)|(i & Hi & Hb & Hm & Hh & O)]).
+  - left. split; auto. intros j pc Hj.
+    destruct (nth_error_same_length thv tbufs j pc L1 Hj) as (buf & Eb).
+    destruct (O j pc buf); auto. discriminate.
+  - right. exists i. split; auto. split; auto. intros j pc Hne Hj.
+    destruct (nth_error_same_length thv tbufs j pc L1 Hj) as (buf & Eb).
+    destruct (O j pc buf); auto. congruence.
+Qed.
+
+Lemma TRep_strip thv tbufs tmarks h hb hm : TRep thv tbufs tmarks h hb hm -> Forall thw hb ->
+  strip (concat tbufs) = hb.
+Proof.
+  intros (L1 & L2 & [(Hh & -> & O)|(i & Hi & Hb & Hm & Hh & O)]) Fh.
+  - apply strip_concat_out. intros b Hb. apply In_nth_error in Hb. destruct Hb as (j & Ej).
+    destruct (nth_error_same_length tbufs thv j b) as (pc & Ep); auto.
+    destruct (O j pc b); auto. discriminate.
+  - destruct (nth_error_split _ _ Hb) as (l1 & l2 & -> & Hlen).
+    rewrite concat_app. cbn [concat]. rewrite !strip_app.
+    assert (A1 : strip (concat l1) = []).
+    { apply strip_concat_out. intros b Hin. apply In_nth_error in Hin. destruct Hin as (j & Ej).
+      assert (Hj : (j < length l1)%nat) by (apply nth_error_Some; congruence).
+      assert (Ej' : nth_error (l1 ++ hb :: l2) j = Some b) by (rewrite nth_error_app1; auto).
+      destruct (nth_error_same_length (l1 ++ hb :: l2) thv j b) as (pc & Ep); auto.
+      destruct (O j pc b); auto. intros Hx. inversion Hx. lia. }
+    assert (A2 : strip (concat l2) = []).
+    { apply strip_concat_out. intros b Hin. apply In_nth_error in Hin. destruct Hin as (j & Ej).
+      assert (Ej' : nth_error (l1 ++ hb :: l2) (length l1 + S j) = Some b).
+      { rewrite nth_error_app2 by lia. replace (length l1 + S j - length l1)%nat with (S j) by lia. exact Ej. }
+      destruct (nth_error_same_length (l1 ++ hb :: l2) thv (length l1 + S j) b) as (pc & Ep); auto.
+      destruct (O (length l1 + S j)%nat pc b); auto. intros Hx. inversion Hx. lia. }
+    rewrite A1, A2, app_nil_r. cbn [app]. apply strip_nolock.
+    eapply Forall_impl; [|exact Fh]. apply thw_nolock.
+Qed.
+
+Lemma TInv_Inv s : TInv s -> Inv (logical s).
+Proof.
+  intros (h & hb & hm & T & Rp).
+  pose proof (TRep_Rep _ _ _ _ _ _ Rp) as R.
+  exists h. split; [|exact R].
+  pose proof (hshape_thw _ _ _ (tc_hsh _ _ _ _ _ _ _ _ _ _ _ T)) as Fh.
+  destruct (Rep_aggr (mm (sc s)) _ _ R) as (_ & A2 & _).
+  cbn [logical mm qsize own pushed returned]. unfold lmem.
+  rewrite (TRep_strip _ _ _ _ _ _ Rp Fh).
+  replace (holders (sc s)) with (lkof (own (sc s)) h) by (unfold holders, lkof; rewrite A2; reflexivity).
+  exact (tc_core _ _ _ _ _ _ _ _ _ _ _ T).
+Qed.
+
+(** for every accepted fence table, every state reachable under TSO - any capacity, any number
+    of thieves, any schedule of program steps and flushes - satisfies the deque invariant on its
+    logical memory *)
+Theorem tso_sound t s : fence_table_ok t = true ->
+  reachable tso_initial (tso_step t) s -> StateInv (logical s).
+Proof.
+  intros OK Hr. apply Inv_StateInv. apply TInv_Inv. revert s Hr.
+  apply invariant_rule.
+  - apply TInv_init.
+  - intros s0 a s1 H E. eapply TInv_step; eauto.
+Qed.
+
+(** when all buffers are drained the logical memory is the memory *)
+Definition all_drained (s : tstate) : Prop := obuf s = [] /\ Forall (fun b => b = []) (tbufs s).
+
+Lemma concat_all_nil (l : list (list wr)) : Forall (fun b => b = []) l -> concat l = [].
+Proof. induction 1 as [|b l Hb F IH]; cbn [concat]; auto. subst b. exact IH. Qed.
+Lemma sumw_all_nil (l : list (list wr)) : Forall (fun b => b = []) l -> sumw l = 0.
+Proof. induction 1 as [|b l Hb F IH]; cbn [sumw]; auto. subst b. cbn. exact IH. Qed.
+
+Theorem tso_sound_drained t s : fence_table_ok t = true ->
+  reachable tso_initial (tso_step t) s -> all_drained s -> StateInv (sc s).
+Proof.
+  intros OK Hr (Eo & Et).
+  pose proof (tso_sound t s OK Hr) as S.
+  assert (TL0 : TL s).
+  { revert s Hr Eo Et S. intros s Hr _ _ _. revert s Hr. apply invariant_rule; [apply TL_init|].
+    intros s0 a s1 H E. eapply TL_step; eauto. }
+  destruct TL0 as [K1 _ _ _ _]. rewrite Eo, (sumw_all_nil _ Et) in K1. cbn [wlocks] in K1.
+  assert (E : logical s = sc s).
+  { unfold logical, lmem. rewrite Eo, (concat_all_nil _ Et). cbn [strip filter apply_wrs fold_left].
+    unfold setlck. replace (holders (sc s)) with (lck (mm (sc s))) by lia.
+    destruct (sc s) as [m q o th P R ab]. destruct m. reflexivity. }
+  rewrite <- E. exact S.
+Qed.
+
+(** the statement spelled out *)
+Theorem tso_sound_expanded t s : fence_table_ok t = true ->
+  reachable tso_initial (tso_step t) s ->
+  let l := logical s in
+  qsize l = Z.of_nat (length (ptr (mm l))) /\
+  0 <= Beff l /\ Beff l <= Teff l /\ Teff l <= qsize l /\
+  Permutation (pushed l) (returned l ++ live l ++ inflight l) /\
+  (NoDup (pushed l) -> NoDup (returned l ++ live l ++ inflight l)) /\
+  lck (mm l) = holders l /\ 0 <= holders l <= 1 /\
+  (forall x i m b, own l = OPopFast x -> nth_error (thv l) i = Some (TSlot m b) -> 0 <= b < x).
+Proof.
+  intros OK Hr l. destruct (tso_sound t s OK Hr) as [S1 S2 [S3 [S3' S3'']] S4 S5 [S6 S6'] S7].
+  fold l in S1, S3, S3', S3'', S4, S5, S6, S6', S7.
+  repeat (split; [assumption|]). exact S7.
+Qed.
+
+(** no loss, no duplication under TSO: no operation in flight and all buffers drained *)
+Theorem tso_no_loss_no_dup t s : fence_table_ok t = true ->
+  reachable tso_initial (tso_step t) s -> all_drained s -> quiescent (sc s) ->
+  let c := sc s in
+  0 <= base (mm c) /\ base (mm c) <= top (mm c) /\ top (mm c) <= qsize c /\ lck (mm c) = 0 /\
+  Permutation (pushed c) (returned c ++ zseg (ptr (mm c)) (base (mm c)) (top (mm c))) /\
+  (NoDup (pushed c) -> NoDup (returned c ++ zseg (ptr (mm c)) (base (mm c)) (top (mm c)))).
+Proof.
+  intros OK Hr Hd Hq c.
+  destruct (tso_sound_drained t s OK Hr Hd) as [S1 S2 S3 S4 S5 S6 S7].
+  destruct (quiescent_aggr (sc s) Hq) as (Q1 & Q2 & Q3 & Q4).
+  unfold live in *. rewrite Q1, Q2, Q3, ?app_nil_r in *. rewrite Q4 in S6.
+  destruct S6 as [S6 _]. unfold c. repeat split; auto; lia.
+Qed.
